@@ -3,5 +3,6 @@ pub mod chanrun;
 pub mod containers;
 pub mod life;
 pub mod log;
+pub mod rt;
 pub mod seq;
 pub mod uni;
